@@ -75,6 +75,8 @@ type gen struct {
 	nfrag                int
 	labels               map[string]bool
 	leafOnly, noTypename int
+	noNamed              int // > 0: no named fragments (spreads) are generated
+	rootArgs             int // > 0 while the arguments of a root field are generated (they always stay in a root step)
 	fragsByType          map[string][]fragInfo
 }
 
@@ -226,9 +228,12 @@ func (g *gen) rootSelection(root *ast.Definition) string {
 		}
 	}
 	if nodeField != nil && g.o.NodeRoot && !g.o.Avoid["op.nodeRoot"] && len(g.o.IDs) > 0 && g.chance(15, "noderoot") {
-		if s := g.nodeRoot(sc); s != "" {
-			parts = append(parts, s)
-			g.label("nodeRoot")
+		// one to three node(id:) root fields (a client refetching several entities)
+		for k, nn := 0, 1+g.pick(3, "nnoderoots"); k < nn; k++ {
+			if s := g.nodeRoot(sc); s != "" {
+				parts = append(parts, s)
+				g.label("nodeRoot")
+			}
 		}
 	}
 	if g.chance(4, "roottn") {
@@ -304,11 +309,29 @@ func (g *gen) nodeRoot(sc *scope) string {
 		defer func() { g.noTypename-- }()
 	}
 	_ = nodeDef
+	if g.o.Avoid["op.nodeRootNamedFragment"] {
+		g.noNamed++
+		defer func() { g.noNamed-- }()
+	}
 	for _, m := range members {
 		// prefer the id's own type
 		own := strings.HasPrefix(id, m.Name+"_")
-		if own || g.chance(25, "nodefrag") {
-			parts = append(parts, "... on "+m.Name+" "+g.selectionSet(m, 2, inner.child()))
+		if own || !g.o.Avoid["op.nodeRootSeveralTypeFragments"] && g.chance(25, "nodefrag") {
+			sc := inner.child()
+			pre := ""
+			if g.o.Avoid["op.nodeRootHelperId"] {
+				// the client selects id itself: no helper id is added below the node root
+				if _, used := sc.keys["id"]; !used {
+					sc.keys["id"] = "id"
+					sc.names = append(sc.names, "id")
+				}
+				pre = "id "
+			}
+			if pre != "" && g.chance(25, "idonlyfrag") {
+				parts = append(parts, "... on "+m.Name+" { id }") // refetching nothing but the id
+			} else {
+				parts = append(parts, "... on "+m.Name+" { "+pre+g.selections(m, 2, sc)+" }")
+			}
 		}
 	}
 	if len(parts) == 0 {
@@ -451,7 +474,7 @@ func (g *gen) fragmentOn(def *ast.Definition, depth int, sc *scope) string {
 	sc.inFrag++
 	defer func() { sc.inFrag-- }()
 	// spread an existing fragment on this type a second time (one definition, two usages)
-	if g.o.Fragments && len(g.fragsByType[def.Name]) > 0 && g.chance(40, "reusefrag") {
+	if g.o.Fragments && g.noNamed == 0 && len(g.fragsByType[def.Name]) > 0 && g.chance(40, "reusefrag") {
 		fi := g.fragsByType[def.Name][g.pick(len(g.fragsByType[def.Name]), "whichfrag")]
 		ok := true
 		for k, sig := range fi.keys {
@@ -471,7 +494,7 @@ func (g *gen) fragmentOn(def *ast.Definition, depth int, sc *scope) string {
 			return "..." + fi.name
 		}
 	}
-	if g.o.Fragments && g.chance(35, "named") {
+	if g.o.Fragments && g.noNamed == 0 && g.chance(35, "named") {
 		g.nfrag++
 		name := fmt.Sprintf("F%d", g.nfrag)
 		before := map[string]string{}
@@ -550,7 +573,13 @@ func (g *gen) field(parent *ast.Definition, f *ast.FieldDefinition, depth int, s
 }
 
 func (g *gen) field0(parent *ast.Definition, f *ast.FieldDefinition, depth int, sc *scope) string {
+	if depth == 1 {
+		g.rootArgs++
+	}
 	args := g.arguments(f)
+	if depth == 1 {
+		g.rootArgs--
+	}
 	if args == "!" {
 		return ""
 	}
@@ -682,6 +711,9 @@ func (g *gen) variableFor(typeStr string, posType *ast.Type) *varDef {
 	// reuse
 	if g.chance(25, "reusevar") {
 		for _, v := range g.vars {
+			if v.name == "id" && g.rootArgs == 0 && g.o.Avoid["op.variableNamedId"] {
+				continue // below the root fields a client variable called id meets the gateway's own $id (open finding)
+			}
 			if v.typ == typeStr && (v.pos == posType.String() || !g.o.Avoid["op.variablePositionsDiffer"]) {
 				g.label("variableReused")
 				return v
@@ -689,8 +721,12 @@ func (g *gen) variableFor(typeStr string, posType *ast.Type) *varDef {
 		}
 	}
 	name := fmt.Sprintf("v%d", len(g.vars))
-	if g.chance(6, "varid") {
-		if g.o.VarNamedID && !g.o.Avoid["op.variableNamedId"] {
+	idPct := 6
+	if g.rootArgs > 0 {
+		idPct = 20 // $id for the argument of a root field is what clients write (deleteX(id: $id))
+	}
+	if g.chance(idPct, "varid") {
+		if g.o.VarNamedID && (!g.o.Avoid["op.variableNamedId"] || g.rootArgs > 0) {
 			taken := false
 			for _, v := range g.vars {
 				if v.name == "id" {
@@ -781,6 +817,9 @@ func (g *gen) literalNoVar(t *ast.Type, depth int, constOnly bool) string {
 		}
 		return "false"
 	default:
+		if t.NamedType == "ID" && len(g.o.IDs) > 0 && g.chance(50, "realid") {
+			return jsonStr(g.o.IDs[g.pick(len(g.o.IDs), "idlit")]) // an id of an existing entity (the id hint recognises it)
+		}
 		return jsonStr(g.str())
 	}
 }
@@ -830,6 +869,9 @@ func (g *gen) jsonValue(t *ast.Type, depth int) interface{} {
 	case "Boolean":
 		return g.chance(50, "jbool")
 	default:
+		if t.NamedType == "ID" && len(g.o.IDs) > 0 && g.chance(50, "jrealid") {
+			return g.o.IDs[g.pick(len(g.o.IDs), "idval")]
+		}
 		return g.str()
 	}
 }
